@@ -22,8 +22,13 @@ VENV_PY = '/venv/bin/python'
 CVC5_BIN = '/usr/bin/cvc5'
 
 
+import re as _re
+
+
 def agg_label(o):
-    return '%s/%s.%s' % (o['func'], o['kind'], o['label'])
+    """stable name of an obligation: function / kind . clause, without line numbers (so that an
+    edit that only moves code does not rename obligations)"""
+    return '%s/%s.%s' % (o['func'], o['kind'], _re.sub(r'@L\d+', '', o['label']))
 
 
 def load_json(path, default):
